@@ -159,6 +159,11 @@ fn un_op(op: &str, a: &Number) -> Option<Number> {
         ("negref", Number::Dual2(d)) => Number::Dual2(-d),
         ("neg", Number::F64(_)) => -(a.clone()),
         ("negref", Number::F64(_)) => -a,
+        // negation of the generic container itself, owned and borrowed, whatever it holds
+        ("nneg", _) => -(a.clone()),
+        ("nnegref", _) => -a,
+        // the container's own signum (dual kinds: a variable-free constant)
+        ("nsignum", Number::Dual(_)) | ("nsignum", Number::Dual2(_)) => a.signum(),
         ("abs", _) => a.abs(),
         ("signum", Number::Dual(d)) => Number::Dual(d.signum()),
         ("signum", Number::Dual2(d)) => Number::Dual2(d.signum()),
@@ -566,6 +571,26 @@ pub fn step(st: &mut DualState, t: &[&str]) -> Option<String> {
                         Number::Dual2(d) => d.is_one(),
                     };
                     format!("{}", typed as u8)
+                },
+                "panic",
+            )
+        }
+        ["npowc", i, p] => {
+            // `Pow<f64>` of the generic container itself, owned (even handles) or borrowed (odd handles)
+            let i: usize = i.parse().ok()?;
+            let a = st.vals.get(&i)?.clone();
+            let p = pf(p)?;
+            guarded(|| fmt_num(&(if i % 2 == 0 { a.clone().pow(p) } else { (&a).pow(p) })), "panic")
+        }
+        ["sign", i] => {
+            // `Signed::is_positive` / `is_negative` of the typed number
+            use num_traits::Signed;
+            let a = st.vals.get(&i.parse().ok()?)?.clone();
+            guarded(
+                || match &a {
+                    Number::F64(f) => format!("{} {}", f.is_sign_positive() as u8, f.is_sign_negative() as u8),
+                    Number::Dual(d) => format!("{} {}", d.is_positive() as u8, d.is_negative() as u8),
+                    Number::Dual2(d) => format!("{} {}", d.is_positive() as u8, d.is_negative() as u8),
                 },
                 "panic",
             )
@@ -1027,7 +1052,7 @@ pub fn gen_c18<W: Write>(out: &mut W, thorough: bool, seed: u64) {
     let rounds = if thorough { 30 } else { 3 };
     for _ in 0..rounds {
         let vals = emit_value_set(out, &mut r, 1);
-        for (i, _) in &vals {
+        for (i, k) in &vals {
             for (j, _) in &vals {
                 for op in BINOPS {
                     writeln!(out, "numop {} {} {}", op, i, j).unwrap();
@@ -1058,8 +1083,13 @@ pub fn gen_c18<W: Write>(out: &mut W, thorough: bool, seed: u64) {
                 writeln!(out, "conv {} {}", i, to).unwrap();
             }
             writeln!(out, "powc {} {}", i, hf(2.0)).unwrap();
-            for u in ["neg", "negref", "abs"] {
+            writeln!(out, "npowc {} {}", i, hf(2.0)).unwrap();
+            writeln!(out, "npowc {} {}", i, hf(3.0)).unwrap();
+            for u in ["neg", "negref", "abs", "nneg", "nnegref"] {
                 writeln!(out, "un {} {}", u, i).unwrap();
+            }
+            if *k != 'f' {
+                writeln!(out, "un nsignum {}", i).unwrap();
             }
         }
         writeln!(out, "reset").unwrap();
@@ -1097,6 +1127,13 @@ pub fn gen_c19<W: Write>(out: &mut W, thorough: bool, seed: u64) {
                     writeln!(out, "fcmp {} {} 2", op, hf(*a)).unwrap();
                     writeln!(out, "ncmpf {} 1 {}", op, hf(*b)).unwrap();
                     writeln!(out, "fncmp {} {} 2", op, hf(*a)).unwrap();
+                }
+                // the sign tests follow the sign BIT (-0.0 is negative); NaN carries no meaningful sign
+                if !a.is_nan() {
+                    writeln!(out, "sign 1").unwrap();
+                }
+                if !b.is_nan() {
+                    writeln!(out, "sign 2").unwrap();
                 }
                 writeln!(out, "reset").unwrap();
             }
@@ -1152,6 +1189,7 @@ pub fn gen_c19<W: Write>(out: &mut W, thorough: bool, seed: u64) {
             writeln!(out, "neut {} 1", w).unwrap();
         }
         for i in [1, 2, 3, 4] {
+            writeln!(out, "sign {}", i).unwrap();
             writeln!(out, "iszero {}", i).unwrap();
             writeln!(out, "isone {}", i).unwrap();
         }
